@@ -187,6 +187,16 @@ def _structure_job(args):
             G = rng.standard_normal((n, n, 4)) * 10.0 ** rng.integers(-8, 9)
             Hh = G + oherm(G)
             herm_measure(rec, "random-hermitian", {"structure": "gaussian hermitian", "A": Hh.tolist()}, Hh, spec(Hh))
+    # Hermitian dilations [[0, X], [X^H, 0]] (hollow: zero diagonal blocks; the tridiagonal form has a numerically zero
+    # diagonal) - the standard way to obtain singular values from a Hermitian eigensolver; spectrum = +-singular values of X
+    for (p_, q_) in ((2, 2), (2, 3), (3, 3), (1, 4)):
+        for kind_ in ("gaussian", "integer"):
+            X = rng.standard_normal((p_, q_, 4)) if kind_ == "gaussian" else rng.integers(-3, 4, (p_, q_, 4)).astype(float)
+            n_ = p_ + q_
+            Dl = np.zeros((n_, n_, 4))
+            Dl[:p_, p_:] = X
+            Dl[p_:, :p_] = oherm(X)
+            herm_measure(rec, "hermitian-dilation", {"structure": "[[0, X], [X^H, 0]]", "X_shape": [p_, q_], "entries": kind_}, Dl, spec(Dl))
     # block-diagonal Hermitian matrices (exactly decoupled blocks: zero sub-columns in the middle of the reduction)
     for blocks in ((2, 2), (3, 3), (1, 3, 2), (3, 1, 3)):
         n = sum(blocks)
